@@ -89,9 +89,14 @@ func (l *ltBroadcast) buildPendBlock(pd *pendBlock) bool {
 			buildSuccess = false
 			continue
 		}
-		pd.block.GetTxs()[index] = tx
 		// 交易组处理
 		group, _ := tx.GetTxGroup()
+		// 交易组超出区块交易列表范围, 短哈希与区块内容不匹配, 视为交易缺失, 等待超时后请求完整区块
+		if index+len(group.GetTxs()) > len(pd.block.GetTxs()) {
+			buildSuccess = false
+			continue
+		}
+		pd.block.GetTxs()[index] = tx
 		// 交易组中的其他交易, 依次添加到区块交易列表中
 		for j, gtx := range group.GetTxs() {
 			pd.block.GetTxs()[index+j] = gtx
